@@ -247,3 +247,7 @@ TEXT["C19"].update(
     level=TEXT["C19"]["level"] + " Router-advertisement interval keys: the max arm stores only 4..1800 s, and the min/max cross-check `*min > 3 * *max / 4` is verified with std's Duration-overflow panics as operator preconditions (R9 slices arm_max_interval, arm_min_interval, interval_check).")
 TEXT["C16"].update(
     note=TEXT["C16"]["note"] + " The hmac Mac comparison surface (verify_slice, verify_truncated_left/right) is stubbed with exact semantics over an uninterpreted 32-octet HMAC.")
+
+TEXT["C02"].update(
+    level=TEXT["C02"]["level"] + " apply-range: exactly start ..= end, both ends included, in order, nothing when start > end, no overflow at 255.255.255.255 (R9 slice apply_range_hosts, rule R21).",
+    note=TEXT["C02"]["note"].replace("NOT decided: apply-range (inclusive range loop: no vstd ghost-iterator spec for RangeInclusive; yaml containers block Kani); YAML -> values. ", "NOT decided: YAML -> values. "))
